@@ -33,6 +33,7 @@ import GgrsModel.Proofs.Earliest
 import GgrsModel.Proofs.Session
 import GgrsModel.Proofs.World
 import GgrsModel.Proofs.DelayStep
+import GgrsModel.Proofs.Demo
 
 namespace Ggrs.SyncLayer
 
@@ -74,8 +75,9 @@ namespace Ggrs
 open InputQueue
 
 /-- **C01, the timeline (partial: no disconnected players).** Start from any state satisfying the
-session invariant (a freshly built session does: `SessInv_init`) and run ANY sequence of remote
-input arrivals and rollback-mode `advance_frame` calls, the game executing every request list.
+session invariant (a freshly built session does: `SessInv_init`) and run ANY sequence of local
+input submissions (`add_local_input`), remote input arrivals, rollback-mode `advance_frame` calls —
+the game executing every request list — and cell writes by the game (`SStep`).
 Then for one more `advance_frame` call there are requests `reqs1` (the rollback-and-save phase,
 a prefix of what the call returns) such that, once the game has executed them, for every player
 `p` and every frame `f` below the current frame whose input has arrived, the game's last
@@ -229,3 +231,19 @@ theorem C01_agree_given_links (sA sB sA' sB' : P2P) (ghA ghB : Ghost) (tA tB : T
 
 end Ggrs
 
+namespace Ggrs
+
+/-- **Non-vacuity of the session world.** The world `SStar` the all-schedules theorems quantify over
+contains the runs they are meant for: a freshly built two-player session (it satisfies the
+invariant), the user submitting a local input before every call, the game writing its saves after
+every call, a remote input arriving that contradicts the prediction, three calls that each advance
+the frame, the second of them rolling back (`LoadGameState` in its request list). Since L-input
+(`SStep.localInput`, `SStep.saves`) such runs are paths of the world; before, a second advancing
+call of a session with a local player, and every call that rolls back, was not a step. -/
+theorem C01_world_nonvacuous :
+    (∃ gh, SessInv demoSession gh ⟨0, fun _ => []⟩ []) ∧
+    (∃ t', SStar (demoSession, ⟨0, fun _ => []⟩) (demoS3, t')) ∧ demoS3.sync.currentFrame = 3 ∧
+    (getOk (demoTick demoS1r 6)).2.any (fun r => match r with | .load _ => true | _ => false) = true :=
+  ⟨⟨_, SessInv_init demoSession (fun _ => []) 2 rfl rfl rfl⟩, demo_run _, demo_frame3, demo_rollback⟩
+
+end Ggrs
